@@ -1,5 +1,6 @@
 """C03 container files return exactly the appended values for any writer history."""
 import json
+import os
 import random
 
 from . import common
@@ -153,6 +154,13 @@ def check(run, replay_case=None):
         b1.append([{'id': '%s/p' % cid, 'op': 'parse_schema', 'sid': cid, 'text': json.dumps(c['schema'])},
                    writer_op(c, cid, c['steps'])])
     ev = run.exec_cases(b1)
+    if (not run.quick() or os.environ.get('VERIF_SANITIZERS') == '1') and replay_case is None:
+        # Writer::into_inner / Drop contain the crate's only unsafe blocks: the same histories under Miri
+        from .. import sanitizers
+        def pref(c):
+            t = json.dumps(c)
+            return 3 * ('into_inner' in t) + 2 * ('"why"' in t) + ('sink_plan' in t) + ('drop' in t)
+        sanitizers.miri_stage(run, b1, ev, max_cases=int(os.environ.get('VERIF_MIRI_CASES', '48')), shards=12, prefer=pref, what='writer_history_ops')
     b2 = []
     for c in cases:
         cid = c['cid']
